@@ -549,12 +549,23 @@ func StructFieldsAsOptionsAction(explicitFields ...string) RewriteAction {
 		var newOptions []ast.Option
 
 		structType := firstArgType.AsStruct()
-		oldAssignments := option.Assignments
-		assignmentPathPrefix := oldAssignments[0].Path
+
+		// the fields are assigned under the path the argument itself is assigned to: other
+		// assignments can come first (constants for instance), or hold the argument in an envelope
+		target := assignmentOfArgument(option, option.Args[0])
+		if target == -1 && len(option.Assignments) == 1 && option.Assignments[0].Value.Argument != nil {
+			// a single assignment, made from an argument: there is no doubt
+			target = 0
+		}
+		if target == -1 {
+			return []ast.Option{option}
+		}
+
+		assignmentPathPrefix := option.Assignments[target].Path
 
 		// the option appends one element to a list (see ArrayToAppendAction): a field of
 		// that element can't be assigned on the list itself.
-		if oldAssignments[0].Method != ast.DirectAssignment || (len(assignmentPathPrefix) != 0 && assignmentPathPrefix.Last().Type.IsArray()) {
+		if option.Assignments[target].Method != ast.DirectAssignment || (len(assignmentPathPrefix) != 0 && assignmentPathPrefix.Last().Type.IsArray()) {
 			return []ast.Option{option}
 		}
 
